@@ -252,13 +252,18 @@ class ProgGen:
             self.pools[ci].append(["base", u])
             self.pools[ci].append(["tobase", x, u])
             self.pending_q = ["base", u]
+            if rng.random() < 0.12:
+                # a name no system has: the question fails, and must fail again (and for every other entry point) later
+                self.pending_q = rng.choice([["compat_g", u, "nosuchsys"], ["sysmembers", "nosuchsys"], ["sysdir_all"]])
+                self.pools[ci].append(["compat_g", u, "nosuchsys"])
+                return ["base_sys", u, "nosuchsys"]
             return ["base_sys", u, rng.choice(info.systems)]
         if r < 0.64:
             return ["dim", self.unit_str(ci)]
         if r < 0.71:
             return ["compat", self.unit_str(ci, False)]
         if r < 0.74:
-            g = rng.choice(info.groups + info.systems)
+            g = rng.choice(info.groups + info.systems + (["nosuchsys", "nosuchgroup"] if rng.random() < 0.2 else []))
             if rng.random() < 0.35:
                 # membership itself (a context that redefines a unit must not move it between groups)
                 return ["members", g] if g in info.groups else ["sysmembers", g]
